@@ -282,6 +282,7 @@ type verInfo struct {
 	class   locClass
 	clob    map[ssa.Instruction]int // clobbering instruction → version id it creates
 	in      map[*ssa.BasicBlock]int
+	out     map[*ssa.BasicBlock]int
 	byBlock map[*ssa.BasicBlock][]ssa.Instruction
 }
 
@@ -404,6 +405,7 @@ func (fa *FA) verInfoFor(c locClass) *verInfo {
 			}
 		}
 	}
+	vi.out = out
 	fa.vers[c] = vi
 	return vi
 }
@@ -1303,4 +1305,24 @@ func nestedIn(f, owner *ssa.Function) bool {
 		}
 	}
 	return false
+}
+
+// memValueAtEnd: the symbol of location (addr sym `as`, class c) at the end of block b:
+// the value stored by the last must-alias store when that created the version, else a versioned load atom.
+func (fa *FA) memValueAtEnd(as *Sym, c locClass, b *ssa.BasicBlock, t types.Type) *Sym {
+	vi := fa.verInfoFor(c)
+	ver := vi.out[b]
+	if ver > 0 && ver < 1000 {
+		for in, id := range vi.clob {
+			if id != ver {
+				continue
+			}
+			if st, ok := in.(*ssa.Store); ok {
+				if fa.Sym(st.Addr).K == as.K && types.Identical(st.Val.Type(), t) {
+					return fa.Sym(st.Val)
+				}
+			}
+		}
+	}
+	return &Sym{Op: "ld", K: fmt.Sprintf("ld(%s)@%d", as.K, ver), Args: []*Sym{as}, T: t, Aux: string(c)}
 }
